@@ -35,6 +35,7 @@ type Case struct {
 	ShotMs      []int   `json:"response_ms"` // cyclic per gun
 	// Dense: several thousand tokens per second for a fraction of a second and responses of 0-900 us, so that an
 	// instance keeps arriving at its next token less than a millisecond ahead of time (ShotUs replaces ShotMs)
+	Gap    bool  `json:"gap,omitempty"` // see genGap
 	Dense  bool  `json:"dense,omitempty"`
 	ShotUs []int `json:"response_us,omitempty"`
 }
@@ -75,7 +76,30 @@ func genProfile(t *rapid.T, maxTok int) sg.Node {
 	return leaf("s")
 }
 
+// genGap: a burst, a pause of 2.6-3.4 s without tokens, then a steady part; the first response of every gun is slow
+// enough (2.1-2.6 s) that the rest of the burst is picked up >= 2 s late, and the tokens after the pause are then
+// still in the future: tokens that must be waited for right after a discard.
+func genGap(t *rapid.T) Case {
+	c := Case{Discard: true, Gap: true}
+	c.Instances = rapid.IntRange(1, 2).Draw(t, "instances")
+	c.PerInstance = c.Instances > 1 && rapid.Bool().Draw(t, "perInstance")
+	burst := int64(rapid.IntRange(c.Instances+1, c.Instances+3).Draw(t, "burst"))
+	pause := int64(rapid.IntRange(2600, 3400).Draw(t, "pauseMs")) * int64(time.Millisecond)
+	tail := rapid.IntRange(2, 5).Draw(t, "tailTokens")
+	d := int64(1500 * time.Millisecond)
+	c.Profile = sg.Node{Kind: "composite", Children: []sg.Node{
+		{Kind: "once", N: burst},
+		{Kind: "const", From: 0, DurNs: pause},
+		{Kind: "const", From: (float64(tail) + 0.25) / (float64(d) / 1e9), DurNs: d},
+	}}
+	c.ShotMs = []int{rapid.SampledFrom([]int{2100, 2300, 2600}).Draw(t, "firstResponse"), 0, 0, 0, 0, 0, 0, 0, 0, 0, 0, 0}
+	return c
+}
+
 func genCase(t *rapid.T) Case {
+	if rapid.IntRange(0, 4).Draw(t, "gapShape") == 0 {
+		return genGap(t)
+	}
 	c := Case{}
 	c.Instances = rapid.IntRange(1, 4).Draw(t, "instances")
 	c.PerInstance = rapid.IntRange(0, 3).Draw(t, "perInstance") == 0
@@ -199,7 +223,7 @@ func check(c Case, o *vf.Obs) error {
 	if !c.Discard && discards > 0 {
 		return fmt.Errorf("%d requests reported as discarded although discard_overflow is off", discards)
 	}
-	late12, late23, late3, lateOver1, onTime := 0, 0, 0, 0, 0
+	late12, late23, late3, lateOver1, onTime, waitedAfterDiscard := 0, 0, 0, 0, 0, 0
 	for g, evs := range byG {
 		sort.SliceStable(evs, func(i, j int) bool { return evs[i].at.Before(evs[j].at) })
 		for i := 0; i < len(evs); i++ {
@@ -230,6 +254,9 @@ func check(c Case, o *vf.Obs) error {
 			if lateA >= time.Second {
 				lateOver1++
 			}
+			if i >= 3 && evs[i-2].kind == "discard" && lateA < 0 {
+				waitedAfterDiscard++ // handed out ahead of its time right after this instance discarded a token
+			}
 			if c.Discard {
 				if lateA >= window && out.kind != "discard" {
 					return fmt.Errorf("token scheduled at t+%v was handed to the instance %v late (>= 2s) but was fired instead of being reported as discarded",
@@ -250,6 +277,8 @@ func check(c Case, o *vf.Obs) error {
 	o.ClassIf(discards > 0, "discards_seen")
 	o.ClassIf(c.PerInstance, "per_instance")
 	o.ClassIf(c.Dense, "dense_profile")
+	o.ClassIf(c.Gap, "burst_pause_steady_profile")
+	o.ClassIf(waitedAfterDiscard > 0, "token_waited_for_right_after_a_discard")
 	o.ClassIf(onTime >= 10, "shots_within_1ms_after_their_time")
 	if lateOver1 > 0 || (c.Dense && onTime >= 10) {
 		o.NonTrivial()
